@@ -631,7 +631,8 @@ def gen_listing() -> typing.Tuple[bool, str]:
             raise Unsupported('_should_generate_support refers to run-time state')
         ptr = ProgTr(rr, defaults)
         prog = ptr.stmts(find_function(rr, 'ArgparseRunner', 'run').body, BexpTr(('self._args',), set()), 1)
-        if ptr.lists_deps and variant_of('depsrc') != 'fix':
+        dep_variant = variant_of('depsrc') if ptr.lists_deps else None
+        if ptr.lists_deps and dep_variant not in ('fix', 'fix2'):
             raise Unsupported('_dependency_source_files does not have the pinned shape')
         tpl_variant, sup_variant = variant_of('tplenum'), variant_of('supenum')
         fields = [
@@ -646,6 +647,7 @@ def gen_listing() -> typing.Tuple[bool, str]:
             ('k_fix_suptpl', 'true' if sup_variant == 'fix' else 'false'),
             ('k_path_pure', 'true' if path_effects() == [] else 'false'),
             ('k_ns_check', ns_check_flag()),
+            ('k_fix_constref', 'true' if dep_variant == 'fix2' else 'false'),
         ]
         data = lang_data()
         parts = ['Definition the_code : code := {|\n%s |}.' % ';\n'.join('  %s := %s' % f for f in fields)]
@@ -794,13 +796,17 @@ PIN_COMMON = [
     (JL, 'DSDLTemplateLoader.__init__'), (JL, 'DSDLTemplateLoader.get_source'), (JL, 'DSDLTemplateLoader._filter_template_list_by_suffix'),
     (JI, 'CodeGenerator.get_templates'), (JI, 'SupportGenerator.get_templates'), (JI, 'CodeGenerator._generate_code'),
     ('src/nunavut/lang/_language.py', 'Language.get_support_files'), ('src/nunavut/_utilities.py', 'iter_package_resources'),
+    # what _dependency_source_files() relies on: the transitive walk over the types of fields (arrays, services, delimited types)
+    ('src/nunavut/_dependencies.py', 'DependencyBuilder.transitive'), ('src/nunavut/_dependencies.py', 'DependencyBuilder._build_dependency_list'),
+    ('src/nunavut/_dependencies.py', 'DependencyBuilder._extract_data_types'), ('src/nunavut/_dependencies.py', 'DependencyBuilder._extract_dependent_types'),
 ]
 PIN_VARIANTS = {
     'tplenum': {'orig': [(JL, 'DSDLTemplateLoader.get_templates')],
                 'fix': [(JL, 'DSDLTemplateLoader.get_templates'), (JL, '_is_template_resource')]},
     'supenum': {'orig': [(JI, 'SupportGenerator._get_templates_by_support_type')],
                 'fix': [(JI, 'SupportGenerator._get_templates_by_support_type'), (JI, 'SupportGenerator._rendered_template')]},
-    'depsrc': {'fix': [(RU, 'ArgparseRunner._dependency_source_files')]},
+    # fix: composite dependencies only (bf5515b); fix2: also every definition the front end read (design_notes/C08_constref_fix.patch)
+    'depsrc': {'fix': [(RU, 'ArgparseRunner._dependency_source_files')], 'fix2': [(RU, 'ArgparseRunner._dependency_source_files')]},
     # optional functions: when the tree has them they must have the pinned shape
     'nscheck': {'fix': [(NS, '_NamespaceFactory.check_namespace_files_are_not_type_files')]},
     'typetpl': {'fix': [(JL, 'DSDLTemplateLoader._type_templates'), (JL, 'DSDLTemplateLoader.type_to_template')]},
@@ -825,7 +831,7 @@ def _pins() -> dict:
 def variant_of(part: str) -> typing.Optional[str]:
     """name of the pinned variant the tree under test has for `part` (the richest first), None when it has none of them"""
     pins = _pins()
-    for name in ('fix', 'orig'):
+    for name in ('fix2', 'fix', 'orig'):
         targets = PIN_VARIANTS[part].get(name)
         if targets is not None and pins.get(part, {}).get(name) is not None and _dump(targets) == pins[part][name]:
             return name
@@ -878,7 +884,7 @@ def pin_c08_enum() -> typing.Tuple[bool, str]:
     return True, 'ok'
 
 
-def update_pins() -> None:
+def update_pins(named: typing.Optional[typing.Dict[str, str]] = None) -> None:
     """record the shapes of the tree VERIF_REPO points to (common part always; of each variant part the variant the tree has:
     `fix` when the repair's helper function exists, else `orig`)"""
     try:
@@ -896,7 +902,7 @@ def update_pins() -> None:
     pins['callees'] = merged
     for part, variants in PIN_VARIANTS.items():
         d = _dump(variants['fix'])
-        name = 'fix'
+        name = (named or {}).get(part, 'fix')
         if d is None and 'orig' in variants:
             d, name = _dump(variants['orig']), 'orig'
         if d is not None:
@@ -912,5 +918,5 @@ GENERATORS = {'listing': gen_listing, 'pin_c08_enum': pin_c08_enum}
 
 if __name__ == '__main__':
     import sys
-    if sys.argv[1:] == ['--update-pins']:
-        update_pins()
+    if sys.argv[1:2] == ['--update-pins']:          # optional: part=variant (e.g. depsrc=fix2) to name the variant the tree has
+        update_pins(dict(a.split('=', 1) for a in sys.argv[2:]))
